@@ -1,7 +1,7 @@
 """C07 Each descriptor owned by an AsyncFd is closed exactly once, the right way."""
 import re
 
-from .kernel import (ExprBuilder, Loc, access_path, bool_call_switches, subexprs, variant_edges,
+from .kernel import (resolve_upvars, ExprBuilder, Loc, access_path, bool_call_switches, subexprs, variant_edges,
                      is_local, const_val)
 from . import families as fam
 from . import life
@@ -211,6 +211,10 @@ def r4_drop_paths(r, facts):
     if not r.require(ok_e and err_e, 'AsyncFd::drop', 'match on the add result not found', f.where(al)):
         return
     from .kernel import effective_edge
+    closes_pre = [loc for loc, t in f.calls() if (t.get('callee') or '') == 'libc::close'] + [loc for loc, t in f.calls_to(CLOSE_DIRECT_FD)]
+    hit = f.forward_paths_hit([Loc(0, 0)], f.returns(), blockers=[al] + closes_pre)
+    r.inst('every path through drop queues a close or closes synchronously', f.where(al))
+    r.require(hit is None, 'AsyncFd::drop/skip', 'a path through AsyncFd::drop returns without queuing a close request and without closing synchronously: the descriptor (regular or direct slot) is never released', f.where(hit[0]) if hit else '')
     closes = [(loc, 'libc::close') for loc, t in f.calls() if (t.get('callee') or '') == 'libc::close']
     closes += [(loc, 'close_direct_fd') for loc, t in f.calls_to(CLOSE_DIRECT_FD)]
     r.require(len(closes) == 2, 'AsyncFd::drop/closes', 'expected a libc::close and a close_direct_fd site, found %s' % [c[1] for c in closes], f.where())
@@ -245,7 +249,7 @@ def r4_drop_paths(r, facts):
     sqe.expect_const(r, fm, 'AsyncFd::drop/queued', 1, facts.const('io_uring::libc::IOSQE_CQE_SKIP_SUCCESS'), 'IOSQE_CQE_SKIP_SUCCESS')
     ec = ExprBuilder(c)
     for loc, t in c.calls_to(CLOSE_FILE_FD):
-        a0, a1 = ec.operand(t['args'][0]), ec.operand(t['args'][1])
+        a0, a1 = resolve_upvars(facts, c, ec.operand(t['args'][0])), resolve_upvars(facts, c, ec.operand(t['args'][1]))
         r.require(a0[0] == 'call' and a0[1] == 'fd::AsyncFd::fd' and a1[0] == 'call' and a1[1] == 'fd::AsyncFd::kind', 'AsyncFd::drop/queued-args', 'queued close is not close_file_fd(self.fd(), self.kind(), ..)', c.where(loc))
     r.floor(3)
 
